@@ -143,6 +143,10 @@ def sentinel_pred(kind, t):
         return lambda leaf: leaf.op == 'tuple' and all(is_one(a, 1 if i // d == i % d else 0) for i, a in enumerate(leaf.args))
     raise KeyError(kind)
 
+def P_all_conds(n):
+    from engine import poly as P_
+    return set(P_.all_conds(n))
+
 def main(rep, ws, tier):
     types = 'f' if tier == 'quick' else 'fd'
     gens = [gen(t) for t in types]
@@ -189,6 +193,69 @@ def main(rep, ws, tier):
                     rep.ob(oid + '#iff', 'R07.iff', HOLDS, '', where)
                 else:
                     rep.ob(oid + '#iff', 'R07.iff', VIOLATED, 'checked form throws on %s but the unchecked form reports failure on %s' % (T.show(tc, 4)[:400], T.show(fail_region, 4)[:400]), where)
+            if pred is None and ok:
+                # no failure sentinel: the checked form throws where a quotient of the result would overflow.  Every quotient N/D of
+                # a returning leaf must be covered by its own guard  |D| < 1 && |N| > max*|D|  in the throw condition.
+                try:
+                    tc = SC.throw_cond()
+                    def abs_arg(n):
+                        if n.op == 'absi': return n.args[0]
+                        if n.op == 'call' and 'fabs' in str(n.attr): return n.args[0]
+                        return None
+                    small = set(); over = set(); seen_ = set(); st_ = [tc]
+                    while st_:
+                        x = st_.pop()
+                        if x.id in seen_: continue
+                        seen_.add(x.id); st_.extend(x.args)
+                        if x.op == 'fcmp' and x.attr in ('olt', 'ole'):
+                            a_, b_ = x.args
+                            if b_.op == 'const' and T.const_value(b_) == 1 and abs_arg(a_) is not None: small.add(abs_arg(a_).id)
+                            if a_.op == 'fmul' and any(z.op == 'const' and not isinstance(T.const_value(z), str) and abs(T.const_value(z)) > 10 ** 30 for z in a_.args) and (abs_arg(b_) is not None or b_.op == 'const'):
+                                dd = [abs_arg(z) for z in a_.args if abs_arg(z) is not None]
+                                if dd: over.add(((abs_arg(b_) if b_.op != 'const' else b_).id, dd[0].id))      # a constant numerator is its own magnitude
+                    quot = {}
+                    zero_tested = set()
+                    from .common import lift_all
+                    JL = lift_all(JC, [400000])
+                    for c_ in P_all_conds(JL) | P_all_conds(tc):
+                        if c_.op in ('fcmp', 'icmp') and c_.attr in ('oeq', 'eq', 'une', 'ne') and any(z.op == 'const' and T.const_value(z) == 0 for z in c_.args):
+                            for z in c_.args:
+                                if z.op != 'const': zero_tested.add(z.id)
+                    for lits_, leaf in T.leaves(JL, 100000):
+                        if leaf.op != 'tuple': continue
+                        st_ = list(leaf.args); seen2 = set()
+                        while st_:
+                            x = st_.pop()
+                            if x.id in seen2: continue
+                            seen2.add(x.id); st_.extend(x.args)
+                            if x.op == 'fdiv' and x.args[1].op != 'const': quot[x.id] = x
+                    def core(n):
+                        while n.op in ('fneg', 'sitofp', 'fpext', 'fptrunc'): n = n.args[0]
+                        return n
+                    def guarded(q):
+                        n_, d_ = core(q.args[0]), core(q.args[1])
+                        if d_.id in small and (n_.id, d_.id) in over: return True          # its own overflow guard
+                        if d_.id in small:
+                            # the guarded magnitude may be written differently (|-2*f*n| for the numerator n*(f*2)): equal up to sign as polynomials
+                            from engine import poly as P_
+                            cx = P_.Ctx()
+                            try:
+                                rn = cx.rat(n_)
+                                for (ng, dg) in over:
+                                    if dg != d_.id: continue
+                                    rg = cx.rat(T._nodes[ng])
+                                    if cx.requal(rg, rn) or cx.requal(rg, (P_.pneg(rn[0]), rn[1])): return True
+                            except P_.NotPoly:
+                                pass
+                        if d_.id in zero_tested or q.args[1].id in zero_tested: return True  # a divisor that is only tested against zero (no overflow guard is claimed for it)
+                        return False
+                    unguarded = [q for q in quot.values() if core(q.args[1]).id in small and not guarded(q)]
+                    if quot and over:
+                        rep.ob(oid + '#guard', 'R07.iff', VIOLATED if unguarded else HOLDS,
+                               'the quotient %s of the result has no guard |D| < 1 && |N| > max*|D| of its own in the throw condition %s' % (T.show(unguarded[0], 3)[:120], T.show(tc, 3)[:200]) if unguarded else
+                               '%d quotients, each with its own overflow guard' % len(quot), where)
+                except (vg.Unsupported, OverflowError) as e:
+                    rep.ob(oid + '#guard', 'R07.iff', UNDECIDED, str(e)[:300], where)
             if p.get('flag'):
                 SZ = R.get(p['flag'])
                 if SZ is None:
